@@ -78,12 +78,12 @@ def _is_container(v: Optional[ast.AST]) -> bool:
     return isinstance(v, ast.Call) and call_attr(v) in CONTAINER_CALLS
 
 
-_GROW_CACHE: Dict[int, List[Tuple[str, str, ast.AST, str]]] = {}
-
-
 def _all_grow_sites(repo: Repo) -> List[Tuple[str, str, ast.AST, str]]:
-    key = id(repo)
-    if key not in _GROW_CACHE:
+    # memo kept on the Repo object itself: a module-level table keyed by id(repo) would be a process-lifetime cache
+    # with a non-injective key (ids are reused once a Repo is collected) - the selftest workers analyse many trees
+    # in one process
+    cached = repo.__dict__.get("_c18_grow_sites")
+    if cached is None:
         sites = []
         for mod, qn, f in repo.all_functions():
             for n in walk_no_nested(f):
@@ -96,9 +96,8 @@ def _all_grow_sites(repo: Repo) -> List[Tuple[str, str, ast.AST, str]]:
                             tgt = dotted_name(t.value)
                 if tgt:
                     sites.append((mod.rel, qn, n, tgt))
-        _GROW_CACHE.clear()
-        _GROW_CACHE[key] = sites
-    return _GROW_CACHE[key]
+        cached = repo.__dict__["_c18_grow_sites"] = sites
+    return cached
 
 
 def _growers_of(repo: Repo, rel: str, cls: Optional[str], name: str) -> List[Tuple[str, str, ast.AST]]:
